@@ -89,3 +89,38 @@ def run(ctx):
     t = src(er)
     ok = "'error': result.error" in t and "'result': result.value" in t
     r3.check(ok, f"{m.rel}:Scheduler.extend_run:outcome", "extend_run does not report the fulfilled value / rejection error of the sub-workflow", m.rel, er.lineno)
+
+    # ---- C38.4 run settings reach the sub-scheduler in both modes ---------------------------
+    r4 = ctx.rule("C38.4", "every run setting collected by subrun is forwarded to the sub-scheduler in both execution modes", floor=4)
+    rc = next((n for n in ast.walk(sr) if isinstance(n, (ast.Assign, ast.AnnAssign)) and src(n.targets[0] if isinstance(n, ast.Assign) else n.target) == "run_config" and isinstance(n.value, ast.Dict)), None)
+    if rc is None:
+        raise AnalysisError("subrun: `run_config = {...}` not found", "subrun")
+    keys = [const_str(k) for k in rc.value.keys if k is not None]
+    if len(keys) < 2:
+        raise AnalysisError(f"subrun: run_config has keys {keys}", "subrun")
+    rparam = "run_config"
+    sub_calls = [c for c in calls_in(rt) if isinstance(c.func, ast.Attribute) and c.func.attr in ("run", "extend_run") and src(c.func.value) == "sub_scheduler"]
+    if len(sub_calls) < 2:
+        raise AnalysisError(f"_subrun_root_task: expected sub_scheduler.run and sub_scheduler.extend_run, found {[src(c.func) for c in sub_calls]}", "_subrun_root_task")
+    for c in sub_calls:
+        splat = any(kw.arg is None and src(kw.value) == rparam for kw in c.keywords)
+        for k in keys:
+            explicit = any(
+                kw.arg == k and any(
+                    (isinstance(x, ast.Subscript) and src(x.value) == rparam and const_str(x.slice) == k)
+                    or (isinstance(x, ast.Call) and src(x.func) == f"{rparam}.get" and x.args and const_str(x.args[0]) == k)
+                    for x in ast.walk(kw.value)
+                )
+                for kw in c.keywords
+            )
+            r4.check(
+                splat or explicit,
+                f"{m.rel}:_subrun_root_task:{src(c.func)}:{k}",
+                f"`{src(c.func)}(...)` at line {c.lineno} does not receive run setting `{k}` collected by subrun(): the sub-scheduler runs with its own default for it, so "
+                "subrun(expr) behaves differently from evaluating expr directly (e.g. cache=False is ignored and a stale cached result is returned)",
+                m.rel,
+                c.lineno,
+            )
+    # and the settings are the calling scheduler's own
+    vals = {const_str(k): src(v) for k, v in zip(rc.value.keys, rc.value.values) if k is not None}
+    r4.check(vals.get("dryrun") == "scheduler._dryrun" and vals.get("cache") == "scheduler._use_cache", f"{m.rel}:subrun:run_config-values", f"run_config does not carry the calling scheduler's dryrun/cache settings: {vals}", m.rel, rc.lineno)
